@@ -1091,3 +1091,70 @@ Proof.
   rewrite (accepts_io_model mps ep sb H1k Hsb tr ss_init ref_init ss_wf_init).
   apply ssin_accepted; assumption.
 Qed.
+
+(* ------------------------------------------------------------------------------------------ *)
+(* 5. What acceptance by the referee means for the data: exactly once, in order               *)
+Lemma items_bytes_app : forall a b, items_bytes (a ++ b) = items_bytes a ++ items_bytes b.
+Proof. induction a as [|[w n|] t IH]; intros; cbn [app items_bytes]; [reflexivity | rewrite IH, app_assoc; reflexivity | apply IH]. Qed.
+
+Lemma take_pkt_bytes : forall l room p rest, take_pkt room l = Some (p, rest) ->
+  items_bytes l = items_bytes p ++ items_bytes rest /\ pkt_bytes p <= room.
+Proof.
+  induction l as [|[w n|] t IH]; intros room p rest H; cbn [take_pkt] in H.
+  - destruct (room =? 0); [|discriminate]. apply some_inj in H. inversion H; subst. split; [reflexivity | cbn; lia].
+  - destruct (room =? 0) eqn:E0.
+    + apply some_inj in H. inversion H; subst. split; [reflexivity | cbn; lia].
+    + destruct (n <=? room) eqn:En; [|discriminate].
+      destruct (take_pkt (room - n) t) as [[p' r']|] eqn:Et; [|discriminate].
+      apply some_inj in H. inversion H; subst. destruct (IH _ _ _ Et) as [Hb Hl].
+      cbn [items_bytes pkt_bytes]. rewrite Hb, app_assoc. split; [reflexivity | lia].
+  - destruct (room =? 0) eqn:E0.
+    + apply some_inj in H. inversion H; subst. split; [reflexivity | cbn; lia].
+    + apply some_inj in H. inversion H; subst. split; [reflexivity | cbn; lia].
+Qed.
+
+Section Meaning.
+  Variables (mps ep sb : N).
+
+  Lemma env_phase_pend : forall r i r1, env_phase mps ep sb r i = Some r1 ->
+    items_bytes (r_pend r) =
+    items_bytes (match acked_pkt mps ep sb r i with Some p => p | None => [] end) ++ items_bytes (r_pend r1) /\
+    (forall p, acked_pkt mps ep sb r i = Some p -> pkt_bytes p <= mps).
+  Proof.
+    intros r i r1 H. unfold acked_pkt. rewrite H.
+    destruct (env_phase_cases mps ep sb r i r1 H) as [_ [_ Hc]].
+    destruct Hc as [[Hu ->]|[Hu [_ [_ [_ [_ Hc]]]]]].
+    - rewrite Hu. cbn [andb]. split; [reflexivity | intros; discriminate].
+    - rewrite Hu. cbn [andb].
+      destruct Hc as [[Ho [Hr ->]]|[[Ho [Hr [p [rest [Ht ->]]]]]|[Ho [_ ->]]]].
+      + rewrite Ho. unfold retry_c in Hr. rewrite Hr. cbn [andb negb]. split; [reflexivity | intros; discriminate].
+      + rewrite Ho. unfold retry_c in Hr. rewrite Hr, Ht. cbn [andb negb].
+        destruct (take_pkt_bytes _ _ _ _ Ht) as [Hb Hl]. split; [exact Hb|]. intros q Hq. inversion Hq; subst. exact Hl.
+      + rewrite Ho. cbn [andb]. split; [reflexivity | intros; discriminate].
+  Qed.
+
+  (* EXACTLY ONCE, IN ORDER: along any trace the referee judges and accepts, the bytes accepted from the stream are the
+     bytes of the acknowledged packets, in order, followed by the bytes still pending; no packet exceeds mps bytes *)
+  Theorem referee_exactly_once : forall ios r r', ref_run_io mps ep sb r ios = Some r' ->
+    items_bytes (r_pend r) ++ items_bytes (stream_log ios) =
+    items_bytes (concat (acked_log mps ep sb r ios)) ++ items_bytes (r_pend r') /\
+    Forall (fun p => pkt_bytes p <= mps) (acked_log mps ep sb r ios).
+  Proof.
+    induction ios as [|[i o] t IH]; intros r r' H.
+    - cbn in H. apply some_inj in H. subst. cbn. rewrite app_nil_r. split; [reflexivity | constructor].
+    - cbn [ref_run_io] in H. cbn [acked_log]. unfold ref_step in *.
+      destruct (env_phase mps ep sb r i) as [r1|] eqn:Ee; [|discriminate].
+      destruct (judge mps ep r1 i (unpack_out o)) as [r2 ok] eqn:Ej. destruct ok; [|discriminate].
+      destruct (IH _ _ H) as [IH1 IH2]. destruct (env_phase_pend r i r1 Ee) as [Hp Hle].
+      assert (Hr2 : r_pend r2 = r_pend r1 ++ accepted_items i (unpack_out o)).
+      { unfold judge in Ej. inversion Ej. reflexivity. }
+      rewrite Hr2, items_bytes_app in IH1.
+      unfold stream_log in *. cbn [flat_map fst snd]. rewrite items_bytes_app.
+      split.
+      + rewrite concat_app, items_bytes_app, Hp, <- !app_assoc. f_equal.
+        * destruct (acked_pkt mps ep sb r i); cbn; rewrite ?app_nil_r; reflexivity.
+        * rewrite <- IH1, app_assoc. reflexivity.
+      + apply Forall_app. split; [|exact IH2]. destruct (acked_pkt mps ep sb r i) as [p|] eqn:Ea; constructor; [|constructor].
+        apply Hle. reflexivity.
+  Qed.
+End Meaning.
